@@ -23,7 +23,7 @@ ASSUMPTIONS = [
     'exact references in Fraction arithmetic (stbemv/oracles/slobo.py), validated against the two closed values the repository quotes',
 ]
 REQUIRED = {t: ['routine:h_1_4', 'routine:h_1_2', 'routine:h_1_2-curve', 'routine:h_1_2_pw', 'order:1', 'order:21', 'order:23(h_1_4)',
-                'rel:nonnegative', 'rel:constant', 'rel:scaling', 'rel:translation', 'interval:small', 'interval:large', 'degree:max', 'corner:repo-line-pieces', 'corner:same-intervals-sequence', 'ctor:two-different-orders']
+                'rel:nonnegative', 'rel:constant', 'rel:scaling', 'rel:translation', 'interval:small', 'interval:large', 'degree:max', 'corner:repo-line-pieces', 'corner:same-intervals-sequence', 'ctor:two-different-orders', 'corner:one-callable-for-both-pieces']
             for t in ('quick', 'thorough')}
 TIMEOUT = {'quick': 600, 'thorough': 3600}
 ORDERS = list(range(1, 22, 2))
@@ -283,6 +283,13 @@ def run_corner(spec, acc):
         else:
             g1 = lambda xh: C + d1 * (np.asarray(xh, dtype=float) - b1)
             g2 = lambda xh: C + d2 * (np.asarray(xh, dtype=float) - a2)
+        if case % 3 == 2:
+            # one arc-length callable for the whole two-piece curve, passed for both pieces (as a PiecewiseParametrization.eval would be)
+            def whole(xh, p1=g1, p2=g2, b1=b1, a2=a2):
+                xh = np.asarray(xh, dtype=float)
+                return np.where(xh <= b1, p1(np.minimum(xh, b1)), p2(np.maximum(xh, a2)))
+            g1 = g2 = whole
+            acc.seen('corner:one-callable-for-both-pieces')
         c = [rng.uniform(-1, 1) for _ in range(6)]
 
         def F(X):
